@@ -41,8 +41,53 @@ fn field<'a>(js: &'a str, k: &str) -> &'a str {
     else { let e = rest.find(|c: char| c == ',' || c == '}').unwrap(); rest[..e].trim() }
 }
 
+/// in-place two-slice operations on [i16; 2] frames of length l: (got, want) as strings; want = element-wise frame operation
+fn run_inplace(op: &str, l: usize) -> (String, String) {
+    use dasp_frame::Frame;
+    let a0: Vec<[i16; 2]> = (0..l).map(|i| [(i as i16) * 3 - 50, 7 - (i as i16)]).collect();
+    let b: Vec<[i16; 2]> = (0..l).map(|i| [100 + i as i16, -(i as i16) * 2]).collect();
+    let mut a = a0.clone();
+    let want: Vec<[i16; 2]> = match op {
+        "write" => b.clone(),
+        "add_in_place" => (0..l).map(|i| a0[i].add_amp(b[i])).collect(),
+        _ => (0..l).map(|i| [a0[i][0].wrapping_sub(b[i][1]), a0[i][1] ^ b[i][0]]).collect(),
+    };
+    match op {
+        "write" => dasp_slice::write(&mut a[..], &b[..]),
+        "add_in_place" => dasp_slice::add_in_place(&mut a[..], &b[..]),
+        _ => dasp_slice::zip_map_in_place(&mut a[..], &b[..], |x: [i16; 2], y: [i16; 2]| [x[0].wrapping_sub(y[1]), x[1] ^ y[0]]),
+    }
+    (format!("{:?}", a), format!("{:?}", want))
+}
+
 fn main() {
     let args: Vec<String> = std::env::args().collect();
+    if args.len() >= 3 && args[1] == "replay" && args[2].contains("\"inplace\"") {
+        let op = field(&args[2], "op").to_string();
+        let l: usize = field(&args[2], "l").parse().unwrap();
+        let (g, w) = run_inplace(&op, l);
+        println!("replay dasp_slice::{} on two slices of {} [i16; 2] frames", op, l);
+        println!("  real code    : {}", g);
+        println!("  element-wise : {}", w);
+        if g != w { println!("  => DISAGREE (violation reproduces on the real code)"); std::process::exit(1); }
+        println!("  => agree");
+        return;
+    }
+    if args.len() >= 3 && args[1] == "search" && ["zip_map_in_place_unchecked", "zip_map_in_place", "write", "add_in_place"].contains(&args[2].as_str()) {
+        let mut evals = 0; let mut found = 0;
+        for op in ["zip", "write", "add_in_place"] {
+            for l in 0..=70usize {
+                evals += 1;
+                let (g, w) = run_inplace(op, l);
+                if g != w && found < 1 {
+                    println!("WITNESS {{\"target\":\"inplace\",\"op\":\"{}\",\"l\":{},\"got\":{:?},\"want\":{:?}}}", op, l, g, w);
+                    found += 1;
+                }
+            }
+        }
+        println!("SEARCHED {} cases, {} witnesses", evals, found);
+        return;
+    }
     if args.len() >= 3 && args[1] == "replay" {
         let n: usize = field(&args[2], "n").parse().unwrap();
         let l: usize = field(&args[2], "l").parse().unwrap();
